@@ -215,6 +215,7 @@ pub fn campaign(args: &vkit::Args) -> Report {
     let deadline = std::time::Instant::now() + std::time::Duration::from_secs(secs);
     let only = args.kv.get("only-hist").map(|s| s.parse::<u64>().unwrap());
     let storage = args.str("storage", "local");
+    let prop = args.str("prop", "C03");
     let mut rep = Report::new();
     let mut i = 0u64;
     while std::time::Instant::now() < deadline {
@@ -226,6 +227,27 @@ pub fn campaign(args: &vkit::Args) -> Report {
         let len = rng.range(8, 60) as usize;
         // bias: receiver operations right after a reclaim (the window between reclaim and send)
         let mut script: Vec<u8> = Vec::new();
+        if rng.chance(1, 3) {
+            // worst-case gadget: fill the submission queue while the receiver borrows its maximum, then let the
+            // receiver return everything and take more between the sender's reclaim and its next send
+            for n in 0..(buf + borrow) {
+                script.push(0);
+                script.push(1);
+                if n < borrow {
+                    script.push(2);
+                }
+            }
+            script.push(0);
+            for _ in 0..(buf + borrow) {
+                script.push(if rng.chance(1, 2) { 3 } else { 4 });
+                script.push(2);
+            }
+            script.push(1);
+            for _ in 0..(buf + borrow + 1) {
+                script.push(2);
+                script.push(3);
+            }
+        }
         while script.len() < len {
             match rng.below(10) {
                 0..=3 => {
@@ -281,7 +303,7 @@ pub fn campaign(args: &vkit::Args) -> Report {
                 chunk /= 2;
             }
             let (rule, msg) = r.unwrap();
-            rep.violation(&rule, format!("C03:conn:{}", rule), msg, Json::obj().set("replay_args", format!("c03conn --storage {} --seed {} --shard {} --only-hist {}", storage, seed, shard, hi)));
+            rep.violation(&rule, format!("{}:conn:{}", prop, rule), msg, Json::obj().set("replay_args", format!("c03conn --prop {} --storage {} --seed {} --shard {} --only-hist {}", prop, storage, seed, shard, hi)));
         }
         i += 1;
         if only.is_some() {
